@@ -86,6 +86,14 @@ func TestVerifC06(t *testing.T) {
 	// calls that go straight to the database (NoCache, Transact) and WithSession share the cache
 	kit.Run(t, "C06", "passthrough", kit.N(96, 960), func(c *kit.Case) { passthrough(w, c) })
 	lap("passthrough")
+	// every shape in which a query closure can say "no such row" (and two that only look like it), in turn
+	kit.Run(t, "C06", "nfshape", kit.N(200, 2400), func(c *kit.Case) {
+		cfg := genConfig(c.R)
+		h := runHistory(w, c, cfg, genNFGrid(c.R, cfg), false)
+		c.Obs("nfshape_histories", 1)
+		sample(c, "nfshape", 2, h)
+	})
+	lap("nfshape")
 	runConcurrent(t, w)
 	lap("burst")
 	kit.End()
